@@ -281,8 +281,11 @@ def _compile_shard(path):
     return rc, out, time.time() - t0
 
 
+LAST_SKIPPED = {}
+
+
 def check_cases_in_coq(prop, model_module, terms, shard=300, check_fn="check_case",
-                       extra_imports=(), max_bytes=400_000):
+                       extra_imports=(), max_bytes=400_000, skipped_fn=None):
     """Step 3.  `terms` are Coq terms of the model's `case` type.  Returns
     (failing_indices, compile_errors).  Agreement is a Qed'ed lemma per shard."""
     CASES_DIR.mkdir(exist_ok=True)
@@ -306,15 +309,21 @@ def check_cases_in_coq(prop, model_module, terms, shard=300, check_fn="check_cas
     for k, sh_cases in enumerate(shards):
         p = CASES_DIR / f"{prop}_s{k}.v"
         body = ";\n  ".join(t for _, t in sh_cases)
+        extra = (f"Eval vm_compute in (Z.of_nat (length (filter {skipped_fn} cases))).\n"
+                 if skipped_fn else "")
         p.write_text(header + f"Definition cases := [\n  {body}\n].\n"
                      f"Lemma agree : forallb {check_fn} cases = true.\n"
-                     "Proof. vm_compute. reflexivity. Qed.\n")
+                     "Proof. vm_compute. reflexivity. Qed.\n" + extra)
         paths.append(p)
     failing, errors = [], []
     with cf.ThreadPoolExecutor(max_workers=NCPU) as ex:
         results = list(ex.map(_compile_shard, paths))
+    skipped = 0
     for k, (rc, out, dt) in enumerate(results):
         if rc == 0:
+            m = re.search(r"=\s*(\d+)\s*:\s*Z", out)
+            if m:
+                skipped += int(m.group(1))
             continue
         # locate failing cases of this shard
         p = CASES_DIR / f"{prop}_s{k}_loc.v"
@@ -330,6 +339,7 @@ def check_cases_in_coq(prop, model_module, terms, shard=300, check_fn="check_cas
                 errors.append({"shard": k, "detail": out[-1500:]})
         else:
             errors.append({"shard": k, "detail": (out + "\n" + out2)[-2500:]})
+    LAST_SKIPPED[prop] = skipped
     return sorted(failing), errors
 
 
